@@ -365,6 +365,37 @@ def check(repo: Repo, run: Run) -> None:
 
     # ------------------------------------------------------------------ R3 frames in the sampler decoder
     D = decoders.Decoders(repo)
+    # R5 the class tests of feed_generator mean one kind of trace: `isinstance(trace, X)` is also true for the subclasses of
+    # X, so no decoder of ANOTHER record kind may return a subclass of a tested class
+    tested = {x.a[1][1].a[0] for r_ in list(rec.returns) + list(rec.calls) for c, _ in r_.pc for x in sym.walk(c)
+              if x.op == "call" and x.a[0] == T("builtin", ("isinstance",)) and len(x.a[1]) == 2 and x.a[1][1].op == "class"}
+    made = {}
+    for e_ in D.entries():
+        try:
+            d_ = D.decode(e_)
+        except AnalysisError:
+            continue
+        if d_.ret is not None and d_.ret.op == "new" and isinstance(d_.ret.a[0], str):
+            made.setdefault(d_.ret.a[0], []).append(e_.key)
+
+    def _ancestors(qn, seen=()):
+        f_ = repo.lookup(qn)
+        if not f_ or f_[0] != "class" or qn in seen:
+            return set()
+        out = set()
+        for b in f_[2].bases:
+            out.add(b)
+            out |= _ancestors(b, seen + (qn,))
+        return out
+    for cls_qn in sorted(tested):
+        subs = sorted((qn, ks) for qn, ks in made.items() if qn != cls_qn and cls_qn in _ancestors(qn))
+        run.ob("R5", MOD, "CallstacksParser.feed_generator", f"isinstance(trace, {cls_qn.rsplit('.', 1)[1]}) means one kind of record",
+               not subs, "" if not subs else
+               f"{subs[0][0].rsplit('.', 1)[1]} (returned by the decoder of {subs[0][1][0]}) derives from {cls_qn.rsplit('.', 1)[1]}: "
+               f"feed_generator's isinstance test is true for those records too, so "
+               + ("a record that does not announce an image inserts one" if "Map" in cls_qn else "records of another kind are taken for samples"),
+               line=fg.lineno, witness=None if not subs else f"a {subs[0][1][0]} record")
+    run.floor("R5", "classes tested by isinstance in feed_generator", len(tested), 2)
     ent = [e for e in D.entries() if e.key == "PERF_Event"]
     if not ent:
         raise AnalysisError("anchor vanished: PERF_Event decoder")
